@@ -56,9 +56,28 @@ pub fn hex(b: &[u8]) -> String {
     }
     s
 }
+/// `gen:<len>:<seed>`: a long deterministic byte string (same definition as `Wire.genBytes` in Lean)
+pub fn gen_bytes(len: usize, seed: usize) -> Vec<u8> {
+    (0..len).map(|i| ((i * 7 + seed + i / 251) % 256) as u8).collect()
+}
+/// like the Lean driver's `digest`
+pub fn digest(b: &[u8]) -> String {
+    if b.len() <= 64 {
+        return hex(b);
+    }
+    let mut sum: u64 = 7;
+    for x in b {
+        sum = (sum * 31 + *x as u64) % 1_000_000_007;
+    }
+    format!("len={} sum={} head={} tail={}", b.len(), sum, hex(&b[..8]), hex(&b[b.len() - 8..]))
+}
 pub fn unhex(s: &str) -> Option<Vec<u8>> {
     if s == "-" {
         return Some(vec![]);
+    }
+    if let Some(r) = s.strip_prefix("gen:") {
+        let (l, sd) = r.split_once(':')?;
+        return Some(gen_bytes(l.parse().ok()?, sd.parse().ok()?));
     }
     if s.len() % 2 != 0 {
         return None;
@@ -101,6 +120,39 @@ pub fn guarded(f: impl FnOnce() -> String) -> String {
 
 /// Pipe all lines through the compiled Lean model driver, one output line per input line.
 pub fn run_driver(driver: &str, lines: &[String]) -> Result<Vec<String>, String> {
+    if lines.is_empty() {
+        return Ok(vec![]);
+    }
+    let total: usize = lines.iter().map(|l| l.len()).sum();
+    let _ = total;
+    if lines.len() >= 96 {
+        // several driver processes, lines dealt round-robin
+        let k = 12;
+        let mut parts: Vec<Vec<String>> = vec![Vec::new(); k];
+        for (i, l) in lines.iter().enumerate() {
+            parts[i % k].push(l.clone());
+        }
+        let mut outs: Vec<Result<Vec<String>, String>> = Vec::new();
+        std::thread::scope(|s| {
+            let hs: Vec<_> = parts.iter().map(|p| s.spawn(move || run_driver_one(driver, p))).collect();
+            for h in hs {
+                outs.push(h.join().unwrap());
+            }
+        });
+        let mut its = Vec::new();
+        for o in outs {
+            its.push(o?.into_iter());
+        }
+        let mut res = Vec::with_capacity(lines.len());
+        for i in 0..lines.len() {
+            res.push(its[i % k].next().ok_or("driver output short")?);
+        }
+        return Ok(res);
+    }
+    run_driver_one(driver, lines)
+}
+
+fn run_driver_one(driver: &str, lines: &[String]) -> Result<Vec<String>, String> {
     if lines.is_empty() {
         return Ok(vec![]);
     }
